@@ -1,5 +1,6 @@
 import Rq.Thm.C02
 import Rq.Lemmas.ObjGo
+import Rq.Lemmas.IsiBound
 /-!
 # C01 — decoding never returns anything but the original object
 
@@ -171,7 +172,7 @@ theorem blockEnc_good (sv : Solver) (hs : SolverSpec sv) (sbn : Nat) (o : Oti) (
         · exact hsrc s h2
       · rw [(List.mem_replicate.mp h1).2]; exact hz
   have hcons := consistent_of_determined_square _ hbytes hrows hdet o.t _ hwf
-  obtain ⟨hc, hcapp, _⟩ := hs.full_solved _ _ _ o.t _ e.c ha ht hwf hcons hsolve
+  obtain ⟨hc, hcapp, _⟩ := hs.full_solved _ _ _ _ o.t _ e.c hsp (range_kp_lt _ _ hsp) ha ht hwf hcons hsolve
   exact ⟨ht, het, hsp, hsrc, hc, ⟨_, ha, hcapp⟩, ⟨_, ha, hdet⟩⟩
 
 theorem blockBytes_bytes (data : List Nat) (r : Nat × Nat) (bytes : List Nat) (hb : IsBytes data)
